@@ -212,7 +212,7 @@ def updRun (p : Prog) (f : Nat) (s0 : State) (id : Nat) : State × Bool :=
   if changed then
     let s := s.emit (.changed id)
     let s := (s.get id).subs.foldl
-      (fun s x => if s.obs == some x then s else markDirty (f + 1) s x) s
+      (fun s x => if s.obs == some x then s else markDirty (fuelFor p) s x) s
     (s, true)
   else (s, false)
 
